@@ -36,7 +36,7 @@ func init() {
 		{Name: "TypeAssert arm turned fatal", File: cf, Old: "\tcase *ssa.TypeAssert:\n\t\treturn g.genTypeAssert(v)\n", New: "\tcase *ssa.TypeAssert:\n\t\tlogger.Fatalf(\"Todo: %v\", v)\n", Expect: "ir-exhaustive :: ssa.TypeAssert"},
 		{Name: "nil map constant arm dropped", File: cf, Old: "\t\tcase *types.Map:\n\t\t\tif v.Value == nil {\n\t\t\t\treturn valueWrap{value: wir.NewConst(\"0\", g.tLib.compile(t))}\n\t\t\t}\n\t\t\tlogger.Fatalf(\"Todo:%T\", t)\n", New: "", Expect: "const-kind-coverage :: nil constant of *types.Map"},
 		{Name: "named complex constant arm dropped", File: cf, Old: "\t\t\t\tcase types.Complex64, types.Complex128:\n", New: "\t\t\t\tcase types.UnsafePointer:\n", Expect: "const-kind-coverage :: named/basic sibling"},
-		{Name: "runtime symbol renamed in the back end", File: "internal/backends/compiler_wat/wir/instruction_emitter.go", Old: "\"runtime.mapDelete\"", New: "\"runtime.mapRemove\"", Expect: "backend-call-linkage :: call $runtime.mapRemove"},
+		{Name: "runtime symbol renamed in the back end", File: "internal/backends/compiler_wat/wir/value_map.go", Old: "\"runtime.mapDelete\"", New: "\"runtime.mapRemove\"", Expect: "backend-call-linkage :: call $runtime.mapRemove"},
 		{Name: "runtime function renamed on one target", File: "waroot/src/runtime/runtime_unknown.wa", Old: "#wa:linkname $runtime.assertWithMessage", New: "#wa:linkname $runtime.assertMessage", Expect: "backend-call-linkage :: call $$runtime.assertWithMessage @unknown"},
 		{Name: "runtime .wa function renamed", File: "waroot/src/runtime/defer.wa", Old: "#wa:linkname runtime.popRunDeferStack\n", New: "#wa:linkname runtime.popRunDeferStacks\n", Expect: "backend-call-linkage :: call $runtime.popRunDeferStack"},
 		{Name: "ws helper renamed", File: "waroot/src/runtime/heap.wat.ws", Old: "(func $runtime.DupI32 ", New: "(func $runtime.Dup_I32 ", Expect: "backend-call-linkage :: call $runtime.DupI32"},
